@@ -220,9 +220,12 @@ class Gen:
                 retname = d.split()[1]
             elif d.startswith('at '):
                 mm = re.match(r'at\s+(after|before)\s+`([^`]*)`', d)
-                if not mm:
+                if d.strip() == 'at start':
+                    ins = ('start', None, [])
+                elif not mm:
                     raise TemplateError('bad at: ' + l)
-                ins = (mm.group(1), mm.group(2), [])
+                else:
+                    ins = (mm.group(1), mm.group(2), [])
                 inserts.append(ins)
                 cur = ins[2]
             elif d.startswith('subre '):
@@ -279,10 +282,11 @@ class Gen:
             body = rule_R10(body, fired)
             for kind, a, b, tag in subs:
                 if kind == 'lit':
-                    if a not in body and a not in sig:
+                    rx = anchor_regex(a)
+                    if not rx.search(body) and not rx.search(sig):
                         raise LostAnchor('%s: sub anchor `%s` not found' % (oid, a))
-                    body = body.replace(a, b)
-                    sig = sig.replace(a, b)
+                    body = rx.sub(lambda _m: b, body)
+                    sig = rx.sub(lambda _m: b, sig)
                 else:
                     rx = re.compile(a)
                     if not rx.search(body) and not rx.search(sig):
@@ -291,6 +295,11 @@ class Gen:
                     sig = rx.sub(b, sig)
                 fired.append(tag)
             for pos, a, txt in inserts:
+                if pos == 'start':
+                    k = body.index('{') + 1
+                    body = body[:k] + '\n' + '\n'.join(txt) + '\n' + body[k:]
+                    fired.append('R8')
+                    continue
                 rx = anchor_regex(a)
                 ms = list(rx.finditer(body))
                 if len(ms) != 1:
